@@ -66,7 +66,8 @@ def result_body(r, kind, req_node):
     if kind == "contacts-sync":
         return fx["iq_sync_result"][2]
     if kind == "request-upload":
-        return fx["iq_requestupload_result"][2]
+        # (either of the two answers the server gives: a fresh upload slot, or "already there")
+        return catalogue.h_upload_result(r)[2] if r.random() < 0.7 else fx["iq_requestupload_result"][2]
     return []
 
 
